@@ -31,6 +31,9 @@ RULESETS = {
     # a longer window with a smaller allowance than the shorter one (legal, unusual), three rules for one command
     "D": ({"ip": {"EVENT": "3/s,1/min"}, "global": {"REQ": "4/s,2/min,3/hour"}},
           {"ip": {"EVENT": [[60, 1], [1, 3]]}, "global": {"REQ": [[3600, 3], [60, 2], [1, 4]]}}),
+    # exemptions beside limiting rules of the same command (on a longer and on a shorter interval)
+    "E": ({"ip": {"EVENT": "-1/hour,2/s"}, "global": {"REQ": "2/min,-1/s"}, "3.3.3.3": {"REQ": "1/s,-1/min"}},
+          {"ip": {"EVENT": [[3600, -1], [1, 2]]}, "global": {"REQ": [[60, 2], [1, -1]]}, "3.3.3.3": {"REQ": [[60, -1], [1, 1]]}}),
 }
 
 GEN_EXTRA = r"""
@@ -139,7 +142,7 @@ def run(prop, tier, seed, **kw):
     out = Outcome("C18", tier, seed, "model_checking")
     out.add_matcher("global-limit-counts-messages-the-ip-rule-refused", _known_overblock)
     rnd = random.Random(seed)
-    design = tlc.DesignCheck([("MC_RateLimiter", "MC_RateLimiter_%s.cfg" % w, "RateLimiter/" + w) for w in ("A", "B", "C", "D")],
+    design = tlc.DesignCheck([("MC_RateLimiter", "MC_RateLimiter_%s.cfg" % w, "RateLimiter/" + w) for w in ("A", "B", "C", "D", "E")],
                              workers=4, timeout=1800)
     depth = {"quick": 3, "thorough": 4}[tier]
     distinct = set()
@@ -183,7 +186,7 @@ def run(prop, tier, seed, **kw):
     design.join(out)
     out.cov["distinct_nontrivial"] = len(distinct)
     out.cov["rule"] = ("every arrival sequence of length %d over 3 addresses x 2 commands x clock steps {0,1,30,61} s enumerated by TLC "
-                       "for 4 rule sets (global+ip+specific+exempt; ip only; global+specific; longer window with smaller allowance), plus seeded long runs (sustained "
+                       "for 5 rule sets (global+ip+specific+exempt; ip only; global+specific; longer window with smaller allowance; exemptions beside limiting rules), plus seeded long runs (sustained "
                        "traffic at / just below the limits, bursts), each replayed on the real RateLimiter with cleanup() calls "
                        "interleaved; a case is (rule set, sequence); non-trivial = some message was refused" % depth)
     out.cov["samples"] = samples or [{"note": "none"}]
